@@ -99,10 +99,14 @@ CLAIMED = {
   note="Trusted: Go type checker, go/ssa, the explorer's facts; the convention table in internal/rules/c19.go (derived from the server's admission rule: a key admits Count+1 holders, a hold Rcount+1 re-entries).",
   technique="value-origin analysis of struct literals and call arguments over SSA (convention table, sibling argument-position agreement) + path-sensitive n-1 normalisation facts + ordering/typestate of the request table + lock-held check on scratch buffers, custom checker",
   ref="DESIGN.md section 4 C19"),
+ "C20": dict(
+  text="Static analysis of four structural necessary conditions of queue refinement, and nothing more: the per-key wait and holder queues append to their inline slice only where the overflow ring / scale queue is absent or tested empty (the slice is served first, so anything else reorders); Pop and PopRight of the three segmented deques clear the slot they vacate (Restructuring re-pushes every non-nil slot); their Push stores at the tail cursor before advancing it and takes a new node when the cursor reaches the node size; element reads in Pop / PopRight / Head / Tail sit behind an emptiness test. The bulk of the property - the (node, index) cursor arithmetic across node boundaries, Len, growth, shrink, Resize / Rellac / Restructuring / Reset, iteration, the priority ring's order - needs an inductive invariant and is NOT decided; a wrong index computation there is not seen. Hence 'other', with a deliberately narrow claim.",
+  note="Trusted: Go type checker, go/ssa, the explorer's branch history.",
+  technique="path-sensitive SSA guard/ordering analysis of queue entry points (append-site guard, clear-before-return, store-before-advance, read-behind-test), custom checker",
+  ref="DESIGN.md sections 4 C20 and 9.8"),
 }
 
 NA = {
- "C20": "container refinement under every operation mix needs an inductive invariant over cursor arithmetic; no path/guard/ordering rule is a necessary condition that would not also fire on behaviour-preserving edits (DESIGN.md section 0)",
 }
 
 def main():
